@@ -197,7 +197,7 @@ Section Covered.
 
   Let fin : cst := mkC (clen texts) rest (final_caps p texts rest 0).
 
-  Lemma cov_parts : chain_ok true (rx_re row) p = true /\ fields_located row p = true /\ rx_start row = 0.
+  Lemma cov_parts : chain_ok OAbs (rx_re row) p = true /\ fields_located row p = true /\ rx_start row = 0.
   Proof.
     unfold plan_covers in Hcov. repeat (apply andb_true_iff in Hcov as [Hcov ?]).
     repeat split; auto. apply N.eqb_eq; auto.
